@@ -255,6 +255,54 @@ class Checker:
                              "upstream_dtypes": ["float32", "float64"]})
 
 
+def layer_histories(run, seed):
+    """layers with state (BatchNorm buffers, Dropout masks): the dtype contract must also hold AFTER earlier calls in the other mode"""
+    import itertools
+    Tensor, F, nn, NF = synapgrad_modules()
+    rng = np.random.RandomState(seed)
+    for cls, shape in ((nn.BatchNorm1d, (4, 3)), (nn.BatchNorm1d, (3, 2, 4)), (nn.BatchNorm2d, (3, 2, 2, 2))):
+        for dt, kw in ((np.float32, {}), (np.float64, {"dtype": np.float64})):
+            for mom in (0.1, None):
+                for hist in (("train", "eval"), ("train", "train", "eval", "eval"), ("eval", "train", "eval"), ("train", "eval", "train")):
+                    L = cls(shape[1], momentum=mom, **kw)
+                    key = {"layer": cls.__name__, "dtype": np.dtype(dt).name, "momentum": mom, "history": list(hist)}
+                    for step, mode in enumerate(hist):
+                        getattr(L, mode)()
+                        x = Tensor(rng.rand(*shape).astype(dt) + 0.5, requires_grad=True)
+                        try:
+                            with np.errstate(all="ignore"):
+                                out = L(x)
+                                out.backward(Tensor(np.ones(out.shape, dtype=dt)))
+                        except Exception as e:
+                            run.violation("nn.%s.history_completes" % cls.__name__, "step %d (%s) raised %s: %s" % (step, mode, type(e).__name__, e), key={**key, "step": step}, replay=key)
+                            break
+                        run.rt(("bn-history", cls.__name__, np.dtype(dt).name, mom, hist, step))
+                        facts = {"result_dtype": out.data.dtype == dt, "input_grad_dtype": x._grad is not None and x._grad.dtype == dt,
+                                 "running_mean_dtype": L.running_mean.data.dtype == dt, "running_var_dtype": L.running_var.data.dtype == dt,
+                                 "weight_grad_dtype": L.weight._grad is None or L.weight._grad.dtype == L.weight.data.dtype}
+                        bad = [k for k, ok in facts.items() if not ok]
+                        if bad:
+                            run.violation("nn.%s.%s_after_history" % (cls.__name__, bad[0]), "after %s (step %d, %s mode) with %s input: %s is wrong (result %s, running_var %s)"
+                                          % (list(hist[:step + 1]), step, mode, np.dtype(dt).name, bad, out.data.dtype, L.running_var.data.dtype),
+                                          key={**key, "step": step, "clause": bad[0], "mode": mode}, replay=key)
+                            break
+    for dt in (np.float32, np.float64):
+        for p in (0.0, 0.3, 1.0):
+            for hist in (("train",), ("eval", "train"), ("train", "eval", "train")):
+                L = nn.Dropout(p)
+                for step, mode in enumerate(hist):
+                    getattr(L, mode)()
+                    x = Tensor(rng.rand(3, 4).astype(dt), requires_grad=True)
+                    out = L(x)
+                    out2 = out * 1.0
+                    out2.backward(Tensor(np.ones(out2.shape, dtype=dt)))
+                    run.rt(("dropout-history", np.dtype(dt).name, p, hist, step))
+                    if out.data.dtype != dt or x._grad.dtype != dt:
+                        run.violation("nn.Dropout.result_dtype_after_history", "p=%s %s: result %s grad %s for %s input" % (p, list(hist[:step + 1]), out.data.dtype, x._grad.dtype, np.dtype(dt).name),
+                                      key={"layer": "Dropout", "dtype": np.dtype(dt).name, "p": p, "history": list(hist)}, replay={})
+                        break
+
+
 def main(tier="quick", seed=0, procs=None, only=None):
     run = Run("C10", tier, seed, "exploration")
     run.assume("bounded stand-in: dtype/shape contracts are executed natively; NumPy's promotion rules are executed, not axiomatised",
@@ -289,6 +337,7 @@ def main(tier="quick", seed=0, procs=None, only=None):
         run.extra["failure_classes"] = ck.C.flush()
         if only:
             run.extra["filtered_only"] = only
+    guarded(run, "stateful layer histories", layer_histories, run, seed)
     run.rule = ("one evaluation = one clause (result_dtype | grad_shape | grad_dtype per leaf | root grad_shape/grad_dtype | backward_completes | float32_float64_agree) on one "
                 "(api form, pattern, operand kinds, operand dtype assignment, upstream dtype); all are distinct")
     run.explanation = ("dtype promotion is defined by NumPy and the Tensor constructor, so it is executed on the real functions over the complete finite lattice of dtype x operand kind x "
